@@ -1,2 +1,666 @@
-// Package c06 is the check for property C06 (see DESIGN.md section 3).
+// Package c06: rule selection and suppression compose set-theoretically (property C06).
+//
+// Bounded-exhaustive exploration of configurations (buf.yaml text parsed by buf's own parser, versions
+// v1beta1 / v1 / v2) on one lint image and one breaking image pair (two target files in two directories
+// plus one import-only file), compared against the reference model refrules (refrules.go):
+//
+//	result(config) = U_{r in expand(use) \ expand(except)} result({r})
+//	                 minus exactly the annotations in an ignore path, in that rule's ignore_only paths,
+//	                 on an import-only file (lint; breaking with exclude-imports), or (lint) below a
+//	                 leading comment "buf:lint:ignore <that rule>" on the element or a descriptor ancestor.
+//
+// Parts: A selection algebra through Client.ConfiguredRules over the whole ID universe (+ unknown-ID
+// corruptions, category nesting, deprecated == replacement); B lint configurations; C lint comment-ignore
+// placements x IDs x allow on/off/default; D breaking configurations x exclude-imports.
 package c06
+
+import (
+	"context"
+	"fmt"
+	"os"
+	"sort"
+	"strings"
+	"sync"
+	"sync/atomic"
+	"time"
+
+	"github.com/bufbuild/buf/private/bufpkg/bufcheck"
+	"github.com/bufbuild/buf/private/bufpkg/bufconfig"
+	"github.com/bufbuild/buf/private/bufpkg/bufimage"
+	"github.com/bufbuild/bufverif/internal/bufx"
+	"github.com/bufbuild/bufverif/internal/enum"
+	"github.com/bufbuild/bufverif/internal/evid"
+)
+
+func init() {
+	evid.Register(&evid.Check{ID: "C06", Level: "exploration", Run: run, QuickBudget: 150 * time.Second, ThoroughBudget: 14 * time.Minute})
+}
+
+type versionInfo struct {
+	Name string
+	FV   bufconfig.FileVersion
+}
+
+var allVersions = []versionInfo{
+	{"v1beta1", bufconfig.FileVersionV1Beta1},
+	{"v1", bufconfig.FileVersionV1},
+	{"v2", bufconfig.FileVersionV2},
+}
+
+// counters are the per-clause non-vacuity facts.
+type counters struct {
+	mu sync.Mutex
+	m  map[string]int64
+}
+
+func (c *counters) add(k string, n int64) {
+	c.mu.Lock()
+	c.m[k] += n
+	c.mu.Unlock()
+}
+
+type env struct {
+	r      *evid.Run
+	ctx    context.Context
+	client bufcheck.Client
+	tab    map[string]*tables // version + "/" + kind
+	cnt    *counters
+	caseNo atomic.Int64
+}
+
+func (e *env) tables(version, kind string) *tables { return e.tab[version+"/"+kind] }
+
+// observation of one configuration on the implementation.
+type observation struct {
+	ParseErr string
+	Err      string // non-annotation error from Lint / Breaking
+	Anns     []bufx.Annotation
+}
+
+func (e *env) parse(c cfg) (bufconfig.BufYAMLFile, error) {
+	return bufx.ReadBufYAML(c.yaml())
+}
+
+func (e *env) observe(c cfg, image, against bufimage.Image) observation {
+	y, err := e.parse(c)
+	if err != nil {
+		return observation{ParseErr: err.Error()}
+	}
+	mcs := y.ModuleConfigs()
+	if len(mcs) != 1 {
+		return observation{ParseErr: fmt.Sprintf("expected one module config, got %d", len(mcs))}
+	}
+	var anns []bufx.Annotation
+	if c.Type == "lint" {
+		anns, err = bufx.Lint(e.ctx, mcs[0].LintConfig(), image)
+	} else {
+		var opts []bufcheck.BreakingOption
+		if c.ExcludeImports {
+			opts = append(opts, bufcheck.BreakingWithExcludeImports())
+		}
+		anns, err = bufx.Breaking(e.ctx, mcs[0].BreakingConfig(), image, against, opts...)
+	}
+	if err != nil {
+		return observation{Err: err.Error()}
+	}
+	return observation{Anns: anns}
+}
+
+func (e *env) configuredRules(c cfg) ([]string, error) {
+	y, err := e.parse(c)
+	if err != nil {
+		return nil, fmt.Errorf("parse: %w", err)
+	}
+	mc := y.ModuleConfigs()[0]
+	var cc bufconfig.CheckConfig = mc.LintConfig()
+	if c.Type == "breaking" {
+		cc = mc.BreakingConfig()
+	}
+	rules, err := e.client.ConfiguredRules(e.ctx, ruleTypeOf(c.Type), cc)
+	if err != nil {
+		return nil, err
+	}
+	ids := make([]string, 0, len(rules))
+	for _, r := range rules {
+		ids = append(ids, r.ID())
+	}
+	sort.Strings(ids)
+	return ids, nil
+}
+
+// violationCase is what a replay needs.
+type violationCase struct {
+	Config   cfg               `json:"config"`
+	YAML     string            `json:"buf_yaml"`
+	Comments []comment         `json:"comments,omitempty"`
+	Sources  map[string]string `json:"sources,omitempty"`
+	Expected []string          `json:"expected,omitempty"`
+	Observed []string          `json:"observed,omitempty"`
+	Detail   string            `json:"detail,omitempty"`
+}
+
+func keysOf(as []bufx.Annotation) []string {
+	out := make([]string, 0, len(as))
+	for _, a := range as {
+		out = append(out, annKey(a))
+	}
+	sort.Strings(out)
+	return out
+}
+
+func roles(t *tables, ids []string) string {
+	if len(ids) == 0 {
+		return "none"
+	}
+	rs := make([]string, 0, len(ids))
+	for _, id := range ids {
+		rs = append(rs, t.classify(id))
+	}
+	sort.Strings(rs)
+	return strings.Join(rs, "+")
+}
+
+func run(r *evid.Run) {
+	r.Rule("every configuration of the stated menus (use: subsets up to the size bound; except; ignore; ignore_only; " +
+		"comment placement x comment ID x allow on/off/default; exclude-imports; versions) is rendered to buf.yaml text, parsed by buf and run " +
+		"on the fixture image(s); a case is distinct non-trivial when its normalised configuration (+ comment variant) is new and the model " +
+		"selects at least one rule that reports or has a suppressed annotation")
+	r.Assume("built-in rules only (no plugins, disable_builtin off); one module at '.'; ignore_unstable_packages off; " +
+		"rule/category tables (categories, default flag, deprecation, replacements) are taken from Client.AllRules/AllCategories and are not themselves checked against documentation, except MINIMAL<=BASIC<=STANDARD and deprecated==replacement which are checked on observed results")
+	r.Assume("an empty selection (e.g. use: [X], except: [X], or only a deprecated rule without replacement) is outside the property: buf answers with a system error 'resultRules was empty'; counted, not judged")
+	r.Assume("a comment ignore on a oneof is not on a descriptor ancestor of the oneof's fields; whether it suppresses field rules is counted as unspecified")
+
+	ctx := context.Background()
+	client, err := bufx.CheckClient()
+	if err != nil {
+		r.Incomplete("cannot create check client: " + err.Error())
+		return
+	}
+	e := &env{r: r, ctx: ctx, client: client, tab: map[string]*tables{}, cnt: &counters{m: map[string]int64{}}}
+	for _, v := range allVersions {
+		for _, kind := range []string{"lint", "breaking"} {
+			t, err := loadTables(ctx, client, v.Name, v.FV, kind)
+			if err != nil {
+				r.Incomplete("cannot load rule tables: " + err.Error())
+				return
+			}
+			e.tab[v.Name+"/"+kind] = t
+		}
+	}
+	imageVersions := allVersions
+	if r.Quick() {
+		imageVersions = allVersions[1:] // v1, v2 for the image-based parts; part A covers all three
+	}
+	var vnames []string
+	for _, v := range imageVersions {
+		vnames = append(vnames, v.Name)
+	}
+	r.Set("versions_selection_algebra", []string{"v1beta1", "v1", "v2"})
+	r.Set("versions_image_parts", vnames)
+
+	partWall := map[string]float64{}
+	for _, p := range []struct {
+		name string
+		f    func()
+	}{
+		{"C_comment_ignores", func() { partC(e, vnames) }},
+		{"E_subdir_module", func() { partE(e) }},
+		{"A_selection", func() { partA(e) }},
+		{"D_breaking_grid", func() { partD(e, vnames) }},
+		{"B_lint_grid", func() { partB(e, vnames) }},
+	} {
+		if only := os.Getenv("VERIF_C06_PARTS"); only != "" && !strings.Contains(only, p.name[:1]) {
+			r.Incomplete("part " + p.name + " skipped by VERIF_C06_PARTS")
+			continue
+		}
+		t0 := time.Now()
+		before := r.Evaluations()
+		p.f()
+		partWall[p.name] = time.Since(t0).Seconds()
+		r.Set("evaluations_"+p.name, r.Evaluations()-before)
+	}
+	r.Set("part_wall_s", partWall)
+
+	// non-vacuity: every clause must have been exercised
+	e.cnt.mu.Lock()
+	defer e.cnt.mu.Unlock()
+	keys := make([]string, 0, len(e.cnt.m))
+	for k := range e.cnt.m {
+		keys = append(keys, k)
+	}
+	sort.Strings(keys)
+	clauses := map[string]int64{}
+	for _, k := range keys {
+		clauses[k] = e.cnt.m[k]
+	}
+	r.Set("clause_counts", clauses)
+	for _, need := range requiredClauses {
+		if e.cnt.m[need] == 0 {
+			r.Incomplete("clause never exercised: " + need)
+		}
+	}
+}
+
+var requiredClauses = []string{
+	"select.cases", "select.use_category", "select.use_deprecated_rule", "select.use_deprecated_category", "select.except_removed_rule",
+	"select.default_rules_used", "unknown.rejected", "nesting.checked", "deprecated_equiv.checked",
+	"lint.cases", "lint.except_removed_annotation", "lint.ignore_removed_annotation", "lint.ignore_only_removed_annotation",
+	"lint.comment_removed_annotation", "lint.import_file_had_singleton_candidates", "lint.union_of_two_or_more_rules",
+	"comment.own_suppressed", "comment.ancestor_suppressed", "comment.unrelated_not_suppressed", "comment.disallowed_not_suppressed",
+	"comment.other_id_not_suppressed", "comment.prefix_related_id_cases",
+	"breaking.cases", "breaking.except_removed_annotation", "breaking.ignore_removed_annotation", "breaking.ignore_only_removed_annotation",
+	"breaking.exclude_imports_removed_annotation", "breaking.import_reported_without_exclude_imports",
+	"mono.pairs", "subdir.cases", "subdir.path_removed_annotation", "subdir.path_outside_or_nonmatching_kept_all",
+}
+
+// ---------------------------------------------------------------------------------------------
+// Part A: selection algebra through ConfiguredRules.
+
+func partA(e *env) {
+	r := e.r
+	type job struct {
+		version, kind string
+		use           []string
+	}
+	var jobs []job
+	universeSizes := map[string]int{}
+	for _, v := range allVersions {
+		for _, kind := range []string{"lint", "breaking"} {
+			t := e.tables(v.Name, kind)
+			u := universe(t)
+			universeSizes[v.Name+"/"+kind] = len(u)
+			interesting := stringSet{}
+			for _, id := range u {
+				if t.classify(id) != "rule" {
+					interesting[id] = true
+				}
+			}
+			planted := lintPlanted
+			if kind == "breaking" {
+				planted = breakingPlanted
+			}
+			for _, id := range planted {
+				interesting[id] = true
+			}
+			for _, s := range enum.Subsets(len(u), 0, 2) {
+				use := make([]string, len(s))
+				for i, x := range s {
+					use[i] = u[x]
+				}
+				if r.Quick() && len(use) == 2 && !interesting[use[0]] && !interesting[use[1]] {
+					// quick: a pair of two plain rules is left to the thorough tier
+					continue
+				}
+				jobs = append(jobs, job{v.Name, kind, use})
+			}
+		}
+	}
+	r.Set("select_universe_sizes", universeSizes)
+	if r.Quick() {
+		r.Set("select_bounds", "use: {} + every single ID + every pair with a category / deprecated / planted ID, over ALL rule and category IDs of the version and type; "+
+			"except: for |use|<=1 every single ID of the universe, for pairs none + one representative per role (rule, category, deprecated rule, deprecated category)")
+	} else {
+		r.Set("select_bounds", "use: every subset of size <=2 of ALL rule and category IDs of the version and type; except: for |use|<=1 every subset of size <=1 of all IDs plus every pair (role representative, any ID); "+
+			"for |use|=2 none + one representative per role, and for v2 lint every single ID of the universe")
+	}
+	r.ParallelFor(len(jobs), 0, func(i int) {
+		j := jobs[i]
+		t := e.tables(j.version, j.kind)
+		u := universe(t)
+		// one representative per structural role
+		var reps []string
+		seenRole := map[string]bool{}
+		planted := lintPlanted
+		if j.kind == "breaking" {
+			planted = breakingPlanted
+		}
+		for _, id := range append(append([]string{}, planted[:1]...), u...) {
+			role := t.classify(id)
+			if !seenRole[role] {
+				seenRole[role] = true
+				reps = append(reps, id)
+			}
+		}
+		excepts := [][]string{nil}
+		if len(j.use) == 2 && (r.Quick() || !(j.version == "v2" && j.kind == "lint")) {
+			for _, id := range reps {
+				excepts = append(excepts, []string{id})
+			}
+		} else {
+			for _, id := range u {
+				excepts = append(excepts, []string{id})
+			}
+		}
+		if !r.Quick() && len(j.use) <= 1 {
+			for _, a := range reps {
+				for _, b := range u {
+					if a != b {
+						excepts = append(excepts, []string{a, b})
+					}
+				}
+			}
+		}
+		for _, ex := range excepts {
+			c := cfg{Version: j.version, Type: j.kind, Use: j.use, Except: ex}
+			checkSelection(e, t, c)
+		}
+	})
+	partAUnknown(e)
+	partANesting(e)
+	partADeprecated(e)
+}
+
+// universe is every ID that is known for the rule type: rules (incl. deprecated) and categories with rules of the type.
+func universe(t *tables) []string {
+	var u []string
+	for id := range t.Rules {
+		u = append(u, id)
+	}
+	for id := range t.Cats {
+		if _, ok := t.expand(id); ok {
+			u = append(u, id)
+		}
+	}
+	sort.Strings(u)
+	return u
+}
+
+func checkSelection(e *env, t *tables, c cfg) {
+	r := e.r
+	r.Eval(1)
+	e.cnt.add("select.cases", 1)
+	sel, unknown := t.selection(c.Use, c.Except)
+	got, err := e.configuredRules(c)
+	vc := func(detail string) violationCase {
+		return violationCase{Config: c, YAML: c.yaml(), Expected: sel.sorted(), Observed: got, Detail: detail}
+	}
+	if len(unknown) > 0 {
+		// cannot happen in part A proper (universe IDs only)
+		if err == nil {
+			r.Violate("select/"+c.Type+"/unknown-id-accepted", "unknown ID accepted by ConfiguredRules", vc(strings.Join(unknown, ",")))
+		}
+		return
+	}
+	if len(sel) == 0 {
+		e.cnt.add("select.empty_selection_unspecified", 1)
+		if err != nil {
+			e.cnt.add("select.empty_selection_error", 1)
+			return
+		}
+	} else if err != nil {
+		r.Violate("select/"+c.Type+"/unexpected-error", "ConfiguredRules failed on a configuration of known IDs: "+err.Error(), vc(err.Error()))
+		return
+	}
+	exp := sel.sorted()
+	if strings.Join(exp, ",") != strings.Join(got, ",") {
+		r.Violate("select/"+c.Type+"/"+selectionCulprit(t, c, sel, got), "ConfiguredRules differs from expand(use) \\ expand(except)", vc(""))
+		return
+	}
+	if len(sel) == 0 {
+		return
+	}
+	// coverage
+	nontrivial := false
+	for _, id := range c.Use {
+		switch t.classify(id) {
+		case "category":
+			e.cnt.add("select.use_category", 1)
+			nontrivial = true
+		case "deprecated-rule":
+			e.cnt.add("select.use_deprecated_rule", 1)
+			nontrivial = true
+		case "deprecated-category":
+			e.cnt.add("select.use_deprecated_category", 1)
+			nontrivial = true
+		}
+	}
+	if len(c.Use) == 0 {
+		e.cnt.add("select.default_rules_used", 1)
+	}
+	if len(c.Except) > 0 {
+		withoutExcept, _ := t.selection(c.Use, nil)
+		if len(withoutExcept) > len(sel) {
+			e.cnt.add("select.except_removed_rule", 1)
+			nontrivial = true
+		}
+	}
+	if nontrivial || len(c.Use) >= 2 {
+		r.Distinct("A|" + c.key())
+	}
+	r.SampleEvery(int(e.caseNo.Add(1)), 200003, func() any {
+		return map[string]any{"part": "A", "config": c, "configured_rules": len(got)}
+	})
+}
+
+// selectionCulprit names the structural role of the ID responsible for the first differing rule.
+func selectionCulprit(t *tables, c cfg, sel stringSet, got []string) string {
+	gotSet := stringSet{}
+	for _, g := range got {
+		gotSet[g] = true
+	}
+	for _, g := range got {
+		if sel[g] {
+			continue
+		}
+		// extra rule: removed by an except ID in the model, or never selected
+		for _, ex := range c.Except {
+			if s, ok := t.expand(ex); ok && s[g] {
+				return "extra/except-not-applied/" + t.classify(ex)
+			}
+		}
+		if _, isRule := t.Rules[g]; isRule && t.Rules[g].Deprecated {
+			return "extra/deprecated-rule-listed"
+		}
+		return "extra/rule-never-selected"
+	}
+	for _, x := range sel.sorted() {
+		if gotSet[x] {
+			continue
+		}
+		if len(c.Use) == 0 {
+			return "missing/default-rule-not-selected"
+		}
+		for _, u := range c.Use {
+			if s, ok := t.expand(u); ok && s[x] {
+				return "missing/use-not-expanded/" + t.classify(u)
+			}
+		}
+	}
+	return "differs"
+}
+
+// corruptions returns every single-character corruption of id: deletion, substitution, insertion over
+// [A-Z_] plus the lower-case form of the character, and adjacent transposition.
+func corruptions(id string) []string {
+	alphabet := "ABCDEFGHIJKLMNOPQRSTUVWXYZ_"
+	seen := map[string]bool{id: true}
+	var out []string
+	add := func(s string) {
+		if s != "" && !seen[s] {
+			seen[s] = true
+			out = append(out, s)
+		}
+	}
+	for i := 0; i < len(id); i++ {
+		add(id[:i] + id[i+1:])
+		for _, a := range alphabet {
+			add(id[:i] + string(a) + id[i+1:])
+		}
+		add(id[:i] + strings.ToLower(id[i:i+1]) + id[i+1:])
+		if i+1 < len(id) {
+			add(id[:i] + id[i+1:i+2] + id[i:i+1] + id[i+2:])
+		}
+	}
+	for i := 0; i <= len(id); i++ {
+		for _, a := range alphabet {
+			add(id[:i] + string(a) + id[i:])
+		}
+	}
+	return out
+}
+
+func partAUnknown(e *env) {
+	r := e.r
+	seeds := map[string][]string{
+		"lint":     {"ENUM_PASCAL_CASE", "BASIC", "COMMENT_ENUM"},
+		"breaking": {"FIELD_NO_DELETE", "WIRE_JSON", "FILE"},
+	}
+	type job struct {
+		version, kind, id, pos string
+	}
+	var jobs []job
+	total := 0
+	for _, v := range allVersions {
+		for _, kind := range []string{"lint", "breaking"} {
+			for _, seed := range seeds[kind] {
+				cs := corruptions(seed)
+				total += len(cs)
+				for _, id := range cs {
+					for _, pos := range []string{"use", "except", "ignore_only"} {
+						jobs = append(jobs, job{v.Name, kind, id, pos})
+					}
+				}
+			}
+		}
+	}
+	r.Set("unknown_id_corruptions", total)
+	// tiny images so that Lint / Breaking can be asked too (the error must come before any rule runs)
+	img, _, err := buildPlain(e.ctx, map[string]string{"a/v1/x.proto": "syntax = \"proto3\";\npackage a.v1;\nmessage M {}\n"}, nil)
+	if err != nil {
+		r.Incomplete("cannot build the tiny image: " + err.Error())
+		return
+	}
+	r.ParallelFor(len(jobs), 0, func(i int) {
+		j := jobs[i]
+		t := e.tables(j.version, j.kind)
+		if t.AllIDs[j.id] {
+			e.cnt.add("unknown.corruption_is_a_known_id_skipped", 1)
+			return
+		}
+		c := cfg{Version: j.version, Type: j.kind}
+		switch j.pos {
+		case "use":
+			c.Use = []string{j.id}
+		case "except":
+			c.Except = []string{j.id}
+		case "ignore_only":
+			c.IgnoreOnly = []kv{{ID: j.id, Paths: []string{"a"}}}
+		}
+		r.Eval(1)
+		_, cerr := e.configuredRules(c)
+		obs := observation{Err: "not asked"}
+		if !r.Quick() || j.version == "v2" {
+			// quick: the second observation point (Lint / Breaking) only for the current version
+			obs = e.observe(c, img, img)
+			e.cnt.add("unknown.also_asked_lint_or_breaking", 1)
+		}
+		if cerr == nil {
+			r.Violate("unknown-id/"+j.kind+"/"+j.pos+"/accepted-by-ConfiguredRules", "a corrupted rule/category ID was accepted",
+				violationCase{Config: c, YAML: c.yaml(), Detail: j.id})
+			return
+		}
+		if obs.ParseErr == "" && obs.Err == "" {
+			r.Violate("unknown-id/"+j.kind+"/"+j.pos+"/accepted-by-check", "a corrupted rule/category ID was accepted by Lint/Breaking",
+				violationCase{Config: c, YAML: c.yaml(), Detail: j.id})
+			return
+		}
+		e.cnt.add("unknown.rejected", 1)
+		e.cnt.add("unknown.rejected_"+j.pos, 1)
+		if i%97 == 0 {
+			r.Distinct("U|" + c.key())
+		}
+	})
+}
+
+// partANesting: MINIMAL within BASIC within STANDARD, on what ConfiguredRules answers.
+func partANesting(e *env) {
+	r := e.r
+	for _, v := range allVersions {
+		get := func(cat string) (stringSet, bool) {
+			ids, err := e.configuredRules(cfg{Version: v.Name, Type: "lint", Use: []string{cat}})
+			if err != nil {
+				r.Violate("nesting/"+cat+"/error", "category is not usable: "+err.Error(), violationCase{Config: cfg{Version: v.Name, Type: "lint", Use: []string{cat}}})
+				return nil, false
+			}
+			s := stringSet{}
+			for _, id := range ids {
+				s[id] = true
+			}
+			return s, true
+		}
+		chain := []string{"MINIMAL", "BASIC", "STANDARD"}
+		for i := 0; i+1 < len(chain); i++ {
+			r.Eval(1)
+			small, ok1 := get(chain[i])
+			big, ok2 := get(chain[i+1])
+			if !ok1 || !ok2 {
+				continue
+			}
+			for id := range small {
+				if !big[id] {
+					r.Violate("nesting/"+chain[i]+"-not-within-"+chain[i+1], fmt.Sprintf("%s (in %s) is not in %s for %s", id, chain[i], chain[i+1], v.Name),
+						violationCase{Config: cfg{Version: v.Name, Type: "lint", Use: []string{chain[i]}}, Detail: id})
+				}
+			}
+			if len(small) > 0 && len(big) > len(small) {
+				e.cnt.add("nesting.strict", 1)
+			}
+			e.cnt.add("nesting.checked", 1)
+			r.Distinct("N|" + v.Name + chain[i])
+		}
+	}
+}
+
+// partADeprecated: a deprecated ID gives the same ConfiguredRules as its replacements, in use and in except position.
+func partADeprecated(e *env) {
+	r := e.r
+	for _, v := range allVersions {
+		for _, kind := range []string{"lint", "breaking"} {
+			t := e.tables(v.Name, kind)
+			type dep struct {
+				id   string
+				repl []string
+			}
+			var deps []dep
+			for id, ri := range t.Rules {
+				if ri.Deprecated && len(ri.Repl) > 0 {
+					deps = append(deps, dep{id, ri.Repl})
+				}
+			}
+			for id, ci := range t.Cats {
+				if ci.Deprecated && len(ci.Repl) > 0 {
+					if _, ok := t.expand(id); ok {
+						deps = append(deps, dep{id, ci.Repl})
+					}
+				}
+			}
+			sort.Slice(deps, func(i, j int) bool { return deps[i].id < deps[j].id })
+			for _, d := range deps {
+				same := func(a, b cfg, pos string) {
+					r.Eval(1)
+					ga, ea := e.configuredRules(a)
+					gb, eb := e.configuredRules(b)
+					if (ea == nil) != (eb == nil) || strings.Join(ga, ",") != strings.Join(gb, ",") {
+						r.Violate("deprecated/"+kind+"/"+pos+"/differs-from-replacement/"+t.classify(d.id),
+							fmt.Sprintf("%s and its replacements %v give different configured rules", d.id, d.repl),
+							violationCase{Config: a, YAML: a.yaml() + "---\n" + b.yaml(), Expected: gb, Observed: ga})
+						return
+					}
+					e.cnt.add("deprecated_equiv.checked", 1)
+					r.Distinct("D|" + a.key())
+				}
+				same(cfg{Version: v.Name, Type: kind, Use: []string{d.id}}, cfg{Version: v.Name, Type: kind, Use: d.repl}, "use")
+				// except position: start from everything the type has
+				var all []string
+				for id, ri := range t.Rules {
+					if !ri.Deprecated {
+						all = append(all, id)
+					}
+				}
+				sort.Strings(all)
+				same(cfg{Version: v.Name, Type: kind, Use: all, Except: []string{d.id}}, cfg{Version: v.Name, Type: kind, Use: all, Except: d.repl}, "except")
+				same(cfg{Version: v.Name, Type: kind, Except: []string{d.id}}, cfg{Version: v.Name, Type: kind, Except: d.repl}, "except-of-default")
+			}
+		}
+	}
+}
